@@ -27,7 +27,7 @@ RULE = ('case = a version 1.0 dataset directory (text tables written by kapture_
         'files, foreign files, image folders named like the feature type; observations without type column, unsorted, with '
         'repeated points) + explicit or defaulted type names + metric names + image transfer strategies. Every case is '
         'upgraded by the in-place route (on a copy) and by the copy route once per listed strategy; each result is listed '
-        'file by file and loaded with kapture_from_dir. Every subset of the five reconstruction parts is enumerated on a two-image dataset (quick: defaulted names, version lines present; thorough: x explicit keypoints type x version lines absent). A further stream holds trees outside the domain (wrong or missing '
+        'file by file and loaded with kapture_from_dir. Every element type name in every spelling (13 names x bare / np. / numpy. prefix, as far as the readers under test accept them) occurs in a 1.0 descriptor file of a deterministic block; every subset of the five reconstruction parts is enumerated on a two-image dataset (quick: defaulted names, version lines present; thorough: x explicit keypoints type x version lines absent). A further stream holds trees outside the domain (wrong or missing '
         'version lines, unknown element type, unnamed feature without explicit type, matches/observations without a '
         'keypoints type, malformed observation rows, already upgraded trees). Non-trivial = in the domain of at least one '
         'route and holding at least one reconstruction part or three tables; distinct = distinct (tree, arguments, strategies).')
@@ -39,8 +39,8 @@ TRUSTED = ['kapture_from_dir followed by kapture_to_dir is used as the canonical
 ASSUMPTIONS = ['text files use LF line ends and contain no NUL; fields contain no comma',
                'the version pattern, when present in the first line of a file, sits in a comment line (starts with #)',
                'type names (explicit or defaulted from the 1.0 descriptor) are plain directory names: non-empty, no slash, not . or ..',
-               'element type names are float16/32/64, int8..64, uint8..64, float, int, optionally prefixed by np. '
-               '(the spellings accepted both by the present reader and by the whitelist reader of fix C16)',
+               'element type names are float16/32/64, int8..64, uint8..64, float, int, optionally prefixed by np. or numpy. '
+               '(each spelling is generated when the 1.0 reader of the tree under test takes it and the 1.1 reader knows the bare name)',
                'the body of the 13 unchanged text tables already has the 1.1 column layout (the premise stated in the upgrade code)',
                'input and output directories are given as absolute paths (root_link with a relative input path makes a dangling link)',
                'image names have a base name with at least one character other than a dot',
@@ -70,7 +70,6 @@ OBS = 'reconstruction/observations.txt'
 FMT11 = '# kapture format: 1.1'
 DTYPES = ['float16', 'float32', 'float64', 'int8', 'int16', 'int32', 'int64', 'uint8', 'uint16', 'uint32', 'uint64',
           'float', 'int']
-BARE_OK = ['float32', 'float64', 'int32', 'uint8', 'float', 'int']     # bare spellings the present reader knows
 VERSION_RE = re.compile(r'# kapture format\:\s*(?P<version>\d+\.\d+)')
 
 
@@ -730,15 +729,68 @@ def _reader_knows(name):
     return _READER_KNOWS[name]
 
 
+_SPELLING_OK = {}
+
+
+def _spelling_ok(token):
+    """Is this spelling of an element type usable in a 1.0 descriptor file of the tree under test: the 1.0 reader
+    (read_old_image_features_csv) takes it without raising, and the 1.1 reader knows the bare name the upgrade writes?"""
+    if token not in _SPELLING_OK:
+        import tempfile
+        from kapture.utils.upgrade import read_old_image_features_csv
+        ok = py_dtype(token) is not None and _reader_knows(py_dtype(token))
+        if ok:
+            d = tempfile.mkdtemp(prefix='kv-c20-probe-', dir='/var/tmp')
+            try:
+                fp = os.path.join(d, 'keypoints.txt')
+                with open(fp, 'w') as f:
+                    f.write('# kapture format: 1.0\n# name, dtype, dsize\nprobe, ' + token + ', 2\n')
+                try:
+                    read_old_image_features_csv(fp)
+                except Exception:  # noqa
+                    ok = False
+            finally:
+                shutil.rmtree(d, ignore_errors=True)
+        _SPELLING_OK[token] = ok
+    return _SPELLING_OK[token]
+
+
+SPELLINGS = ['', 'np.', 'numpy.']
+
+
 def _dtype_token(rng):
-    """An element type the 1.0 reader accepts and whose bare name (what the upgrade writes) the 1.1 reader accepts."""
-    r = rng.random()
-    name = rng.choice(DTYPES)
-    if not _reader_knows(name):
-        name = rng.choice(BARE_OK)
-    if r < 0.5 and name in BARE_OK:
-        return name
-    return 'np.' + name if name != 'int' else name
+    """An element type spelling (bare, np. or numpy. prefix) the readers of the tree under test accept."""
+    for _ in range(8):
+        token = rng.choice(SPELLINGS) + rng.choice(DTYPES)
+        if _spelling_ok(token):
+            return token
+    return rng.choice(['float32', 'uint8'])
+
+
+def gen_dtype_block():
+    """Deterministic: every element type name in every spelling (13 x bare / np. / numpy.) the readers accept occurs
+    in a 1.0 descriptor file at least once per run; one dataset per type name, its keypoints, descriptors and global
+    features spelling the same type in the three ways."""
+    H = '# kapture format: 1.0\n'
+    out = []
+    for i, name in enumerate(DTYPES):
+        t = {'top': {'sensors/sensors.txt': ['T', H + 'cam0, cam, camera, SIMPLE_PINHOLE, 640, 480, 500, 320, 240\n'],
+                     'sensors/records_camera.txt': ['T', H + '0, cam0, a.jpg\n']},
+             'kp': None, 'ds': None, 'gf': None, 'mt': None, 'rd': None}
+        for j, (key, feat) in enumerate((('kp', 'KP'), ('ds', 'DS'), ('gf', 'GF'))):
+            token = SPELLINGS[(i + j) % 3] + name
+            if not _spelling_ok(token):
+                continue
+            descname, ext = FKIND[key]
+            t[key] = {descname: ['T', H + '# name, dtype, dsize\n%s, %s, 4\n' % (feat, token)],
+                      'a.jpg' + ext: ['B', '%s:%s' % (key, token)]}
+        if t['kp'] is None and t['ds'] is not None:
+            a_kt = 'KT'
+        else:
+            a_kt = None
+        out.append({'tree': t, 'args': {'kt': a_kt, 'dt': None, 'gt': None, 'dm': 'L2', 'gm': 'L2'},
+                    'strategies': ['skip'], 'stream': 'dtypes'})
+    return out
 
 
 def _feature_folder(rng, key, images, name, version_line, with_json=True):
@@ -960,7 +1012,7 @@ def gen_cases(rng, tier):
     tmp = os.path.join(kv.BUILD, 'tmp', 'C20-gen-%d' % os.getpid())
     os.makedirs(tmp, exist_ok=True)
     n_valid, n_mal = (100, 40) if tier == 'quick' else (900, 300)
-    cases = gen_exhaustive(False, True)
+    cases = gen_exhaustive(False, True) + gen_dtype_block()
     if tier != 'quick':
         cases += gen_exhaustive(True, True) + gen_exhaustive(False, False) + gen_exhaustive(True, False)
     try:
